@@ -146,8 +146,12 @@ pub trait AnyTree {
     fn diff_with(&self, peer: &dyn AnyTree, c16: &mut Vec<String>) -> DiffOut;
     fn fresh(&self) -> Box<dyn AnyTree>;
     fn clone_box(&self) -> Box<dyn AnyTree>;
+    /// `Clone::clone_from(&mut self.tree, &src.tree)`; false when `src` is a tree of another type
+    fn clone_from_any(&mut self, src: &dyn AnyTree) -> bool;
     fn as_any(&self) -> &dyn Any;
     fn base(&self) -> u8;
+    /// the configuration the tree is expected to have: equal ids + equal content => interchangeable
+    fn cfg_id(&self) -> String;
     fn width(&self) -> usize;
     /// digests the configured hasher gives for (key bytes, value bytes)
     fn digests(&self, key: &[u8], val: &[u8]) -> Option<(Vec<u8>, Vec<u8>)>;
@@ -251,6 +255,8 @@ pub struct W<K, V, H, const N: usize> {
     /// `None` in table mode (the script is the hasher)
     dig: Option<Rc<dyn Fn(&K, &V) -> (Vec<u8>, Vec<u8>)>>,
     base: u8,
+    /// the configuration this tree is EXPECTED to have (hasher kind / seed, width, base, key type)
+    cfg: String,
 }
 
 fn to_owned_ranges<K: AsRef<[u8]>>(v: &[PageRange<'_, K>]) -> Vec<OwnedRange> {
@@ -411,6 +417,7 @@ where
             mk: self.mk.clone(),
             dig: self.dig.clone(),
             base: self.base,
+            cfg: self.cfg.clone(),
         })
     }
     fn clone_box(&self) -> Box<dyn AnyTree> {
@@ -419,13 +426,31 @@ where
             mk: self.mk.clone(),
             dig: self.dig.clone(),
             base: self.base,
+            cfg: self.cfg.clone(),
         })
+    }
+    fn clone_from_any(&mut self, src: &dyn AnyTree) -> bool {
+        match src.as_any().downcast_ref::<Self>() {
+            Some(s) => {
+                Clone::clone_from(&mut self.t, &s.t);
+                // the wrapper's description of the EXPECTED configuration follows the source
+                self.mk = s.mk.clone();
+                self.dig = s.dig.clone();
+                self.base = s.base;
+                self.cfg = s.cfg.clone();
+                true
+            }
+            None => false,
+        }
     }
     fn as_any(&self) -> &dyn Any {
         self
     }
     fn base(&self) -> u8 {
         self.base
+    }
+    fn cfg_id(&self) -> String {
+        self.cfg.clone()
     }
     fn width(&self) -> usize {
         N
@@ -520,6 +545,7 @@ fn table_tree<const N: usize>(base: u8, ctor: &Ctor) -> Result<Box<dyn AnyTree>,
         mk,
         dig: None,
         base,
+        cfg: format!("table:n={N}:base={base}"),
     }))
 }
 
@@ -593,6 +619,7 @@ fn sip_tree<K: KeyT + std::hash::Hash>(
         mk,
         dig: Some(dig),
         base,
+        cfg: format!("sip:{:?}:base={base}:key={}", seed, std::any::type_name::<K>()),
     }))
 }
 
